@@ -292,6 +292,44 @@ def flatten(b):
             yield from flatten(st[1])
 
 
+def every_constructor(chk: Check) -> None:
+    """Each metric class, built with nothing but its required arguments under a configuration in which EVERY standard
+    option differs from the stock default, must carry the configured value in each attribute named like an option —
+    for the subclasses and wrappers too (`Mean` forwards to `RatioOfMeans`, `Quantile` to `Bootstrap`): a default
+    written into a wrapper's signature would silently shadow the configuration."""
+    import numpy as np
+    import tea_tasting as tt
+    configs = [
+        dict(alpha=0.1, alternative="less", confidence_level=0.8, equal_var=True, n_obs=(120, 240), n_resamples=321,
+             power=0.7, ratio=2, use_t=False),
+        dict(alpha=0.01, alternative="greater", confidence_level=0.99, equal_var=True, n_obs=77, n_resamples=250,
+             power=0.9, ratio=0.5, use_t=False),
+    ]
+    # the parameters each class DOCUMENTS as "defaults to the global config value" (SampleRatio's `ratio` is not one of
+    # them: its documented default is the constant 1)
+    mean_opts = ("alternative", "confidence_level", "equal_var", "use_t", "alpha", "ratio", "power", "n_obs")
+    boot_opts = ("alternative", "confidence_level", "n_resamples")
+    makers = {
+        "Mean('x')": (lambda: tt.Mean("x"), mean_opts),
+        "Mean('x', 'c')": (lambda: tt.Mean("x", "c"), mean_opts),
+        "RatioOfMeans('x', 'y')": (lambda: tt.RatioOfMeans("x", "y"), mean_opts),
+        "Bootstrap('x', np.mean)": (lambda: tt.Bootstrap("x", np.mean), boot_opts),
+        "Quantile('x', 0.5)": (lambda: tt.Quantile("x", 0.5), boot_opts),
+    }
+    for conf in configs:
+        for name, (mk, opts) in makers.items():
+            chk.case(("ctor-under-config", name, conf["alpha"]))
+            with tt.config_context(**conf):
+                obj = mk()
+            for opt in opts:
+                want = conf[opt]
+                if pv(getattr(obj, opt)) != pv(want):
+                    chk.fail(f"{name} built under a configuration with {opt}={want!r} has {opt}={getattr(obj, opt)!r}: "
+                             "an unspecified parameter is not taken from the configuration in force",
+                             dict(constructor=name, config={k: repr(v) for k, v in conf.items()}, option=opt,
+                                  got=repr(getattr(obj, opt)), expected=repr(want)))
+
+
 def main():
     chk = Check(PROP)
     chk.trusted = common.BASE_TRUST + [
@@ -309,6 +347,7 @@ def main():
             chk.notes.append("regenerated Gen does not type-check; correspondence uses the snapshot model")
             common.use_snapshot()
             common.lake_build(["TeaTasting.Model.Config", "TeaTasting.Driver.PyWire"])
+    every_constructor(chk)
     if chk.tier == "quick":
         run_histories(chk, 120, 3, 8)
     else:
